@@ -267,6 +267,92 @@ execute.stuck_first = 0
 execute.dropped = 0
 
 
+def timed_behaviours(rng, n, first_id):
+    """call sequences of the timed part: appends with pauses (followers go idle: the next record needs the
+    notification), epoch changes, then the leader dies / falls silent / lives on"""
+    out = []
+    for i in range(n):
+        fm, we = rng.choice([(1, 0), (2, 0), (2, 2), (3, 2), (3, 3)])
+        cfg = {'fetchMax': fm, 'wideEvery': we, 'idleMs': rng.choice([2300, 2600]),
+               'timeoutMs': rng.choice([400, 700]), 'fetchMs': 150}
+        steps = []
+        for r in range(rng.randint(2, 4)):
+            if rng.random() < 0.3:
+                steps.append({'a': 'NewEpoch'})
+            steps.append({'a': 'Append', 'n': rng.randint(1, 4)})
+            steps.append({'a': 'AwaitStored'})
+            steps.append({'a': 'Sleep', 'ms': rng.choice([0, 50, 400, 900])})
+        end = i % 3
+        if end == 0:
+            steps += [{'a': 'Kill'}, {'a': 'AwaitReports'}]
+        elif end == 1:
+            steps += [{'a': 'Mute'}, {'a': 'Append', 'n': 1}, {'a': 'AwaitReports'}, {'a': 'Sleep', 'ms': 200}]
+        else:
+            steps += [{'a': 'Sleep', 'ms': 1200}, {'a': 'Append', 'n': 1}, {'a': 'AwaitStored'}]
+        out.append({'id': first_id + i, 'cfg': cfg, 'steps': steps})
+    return out
+
+
+def _go_timed(behs, d, n, timeout=900):
+    stim = os.path.join(d, 'tstim-%d.json' % n)
+    trace = os.path.join(d, 'ttrace-%d.ndjson' % n)
+    core.write_json(stim, {'behaviours': behs})
+    rc, out, wall = core.go_test('server', '^TestVerifReplLoopTimed$', {'VERIF_STIMULI': stim, 'VERIF_TRACE_OUT': trace},
+                                 timeout=timeout, subs=['c02', 'x03'], extra_args=['-v'])
+    if rc != 0 or 'VERIF-X03T behaviours=' not in out:
+        raise core.Inconclusive('timed harness failed rc=%s: %s' % (rc, out[-2000:]))
+    return core.read_ndjson(trace), wall
+
+
+def timed_part(rep, behs, d):
+    """free-running servers with real timers; TLC judges the recorded history.  What did not happen before a
+    deadline (only possible cause on a correct tree: load) is repeated once and then makes the run inconclusive"""
+    lines, wall = _go_timed(behs, d, 0)
+    by_t = {}
+    for ln in lines:
+        by_t.setdefault(ln['t'], []).append(ln)
+    miss = sorted({ln['t'] for ln in lines if ln['res']})
+    for n, t in enumerate(miss[:4]):
+        again, w2 = _go_timed([b for b in behs if b['id'] == t], d, 1 + n)
+        wall += w2
+        by_t[t] = again
+    trace = os.path.join(d, 'ttrace.ndjson')
+    flat = []
+    with open(trace, 'w') as fh:
+        for b in behs:
+            for ln in by_t.get(b['id'], []):
+                fh.write(json.dumps(ln) + '\n')
+                flat.append(ln)
+    res = core.tlc_trace('Trace_ReplTimed.tla', 'Trace_ReplTimed.cfg', trace)
+    by_id = {b['id']: b for b in behs}
+    missing = []
+    for kind, tid, line, action, name in res['fails']:
+        if kind == 'M':
+            missing.append((tid, action, name))
+            continue
+        ev = flat[line - 1] if 0 < line <= len(flat) else {}
+        rep.classify('X03|%s|%s|timed' % (name, action), 'timed part, line %d action %s check %s reports %s state %s' % (
+            line, action, name, ev.get('rp'), ev.get('st')), {'timed': [by_id[tid]]})
+    # how fast a record reached both followers after a pause that let them go idle: below the lower bound of
+    # the idle wait it was the notification that woke them (clock proof); a statistic, not a verdict
+    fast = slow = 0
+    for i, ev in enumerate(flat):
+        if ev['a'] == 'AwaitStored' and not ev['res'] and i >= 2 and flat[i - 1]['a'] == 'Append' and \
+                flat[i - 2]['a'] == 'Sleep' and flat[i - 2]['args'].get('ms', 0) >= 400:
+            b = by_id[ev['t']]
+            if flat[i - 1]['ms'] + ev['ms'] < b['cfg']['idleMs'] - 2000:
+                fast += 1
+            else:
+                slow += 1
+    rep.cov['timed_behaviours'] = len(behs)
+    rep.cov['timed_lines_validated'] = res['validated']
+    rep.cov['timed_reports_observed'] = sum(len(ev['rp']) for ev in flat)
+    rep.cov['timed_wakeups_proven_by_clock'] = fast
+    rep.cov['timed_wakeups_not_provable'] = slow
+    rep.cov['timed_wall_s'] = round(wall, 1)
+    return missing
+
+
 def step_class(lines, line):
     ev = lines.get(line)
     if not ev:
@@ -310,6 +396,14 @@ def judge(rep, behaviours, trace):
 
 def run(rep, tier, seed, replay):
     rng = random.Random(seed)
+    if replay and 'timed' in replay['replay']:
+        with core.scratch('x03') as d:
+            missing = timed_part(rep, replay['replay']['timed'], d)
+        rep.cov['rule'] = 'replay of a saved call sequence of the timed part'
+        rep.cov['samples'] = replay['replay']['timed'][:1]
+        if missing:
+            raise core.Inconclusive('timed part: awaited effects did not show before their deadlines: %s' % missing[:3])
+        return
     if replay:
         behaviours = replay['replay']['behaviours']
         with core.scratch('x03') as d:
@@ -418,9 +512,13 @@ def _run2(rep, quick, rng, jobs, futs, fut_g, fut_p, fut_q):
             fm, we = rng.choice([(1, 0), (2, 0), (2, 2), (3, 2), (3, 3)])
         behaviours.append(to_stimulus(s, i + 1, fm, we))
     # 5. execute on the real servers, 6. TLC judges
+    timed = timed_behaviours(rng, 6 if quick else 30, 100000)
     with core.scratch('x03') as d:
-        trace = execute(behaviours, d, workers=4 if quick else 8, timeout=900 if quick else 2400)
-        tr = judge(rep, behaviours, trace)
+        with concurrent.futures.ThreadPoolExecutor(1) as tex:
+            fut_t = tex.submit(timed_part, rep, timed, d)
+            trace = execute(behaviours, d, workers=4 if quick else 8, timeout=900 if quick else 2400)
+            tr = judge(rep, behaviours, trace)
+            missing = fut_t.result()
     _design(rep, quick, jobs, futs)
     lines = judge.lines
     rep.cov['traces_validated_against_impl'] = len(behaviours) - execute.dropped
@@ -462,7 +560,14 @@ def _run2(rep, quick, rng, jobs, futs, fut_g, fut_p, fut_q):
                        'then the quiescent state is judged; non-trivial = an append together with a notification, an '
                        'epoch change at a follower, a timeout, an idle-wait end or the leader\'s death; distinct by hash'
                        % (len(directed), len(pathb), rep.cov['transition_cover_paths_total'], len(pool), fcov, ftot))
-    rep.cov['samples'] = [behaviours[0], behaviours[len(directed)], behaviours[-1]]
+    rep.cov['samples'] = [behaviours[0], behaviours[len(directed)], behaviours[-1], timed[0]]
+    rep.cov['rule'] += ('; (d) timed part: %d seeded call sequences (appends with pauses, epoch changes, then the leader '
+                        'dies / falls silent / lives on) on free-running servers with real timers' % len(timed))
+    if missing:
+        rep.cov['timed_missing'] = [list(m) for m in missing[:10]]
+        if not rep.violations:
+            raise core.Inconclusive('timed part: awaited effects did not show before their deadlines (also when '
+                                    'repeated): %s' % missing[:3])
     rep.assumptions += ['leader a, followers b and c of one partition; the metadata log is played by the driver '
                         '(CREATE_STREAM, CHANGE_LEADER naming the same leader = a new leader epoch), applied to each '
                         'server through the real Server.apply',
